@@ -1,10 +1,10 @@
 #!/bin/bash
-# run the quick (or given) tier of every claimed property sequentially; summary in /tmp/runall.log
-T=${1:-quick}
+# run the quick (or given) tier of every claimed property sequentially; summary in /tmp/runall_$T.log
+T=${1:-quick}; shift; EXTRA="$@"      # e.g. tools/runall.sh thorough --no-evidence
 cd /verif
-: > /tmp/runall.log
+: > /tmp/runall_$T.log
 for p in $(python3 -c "import json; print(' '.join(c['property_id'] for c in json.load(open('MANIFEST.json'))['checks']))"); do
-  s=$(date +%s); timeout 5000 ./vcheck $p --tier $T > /tmp/runall_$p.log 2>&1; rc=$?; e=$(date +%s)
-  echo "$p rc=$rc $((e-s))s $(tail -n 1 /tmp/runall_$p.log | cut -c1-150)" >> /tmp/runall.log
+  s=$(date +%s); timeout 9000 ./vcheck $p --tier $T $EXTRA > /tmp/runall_$p.log 2>&1; rc=$?; e=$(date +%s)
+  echo "$p rc=$rc $((e-s))s $(tail -n 1 /tmp/runall_$p.log | cut -c1-150)" >> /tmp/runall_$T.log
 done
-echo ALLDONE >> /tmp/runall.log
+echo ALLDONE >> /tmp/runall_$T.log
